@@ -333,8 +333,9 @@ def check (els : List El) : Option Err :=
   let names := allNames els
   let tbl := trigTable els
   if hasDup names then some (.unsupported "duplicate element names")
-  else if qs.any (fun d => isInfix "last-saved#".toList d.default || isInfix "last-saved#".toList d.calcu
-      || isInfix "last-saved#".toList d.trigger) then some (.unsupported "last-saved")
+  else if qs.any (fun d => [d.default, d.calcu, d.trigger].any fun c =>
+      isInfix "last-saved#".toList c || isInfix "indexed-repeat(".toList c || isInfix "instance(".toList c) then
+    some (.unsupported "last-saved / indexed-repeat / instance()")
   else
   match firstErr (rowErr dyn) qs with
   | some e => some e
